@@ -1,6 +1,7 @@
 import Lean.Data.Json
 import SpoxModel.Model.BuildAlg
 import SpoxModel.Model.Bridge
+import SpoxModel.Model.DfsMany
 /-! Line-protocol handler for C04: run the `Builder` model on an abstract program and report
     `graph_topo`, `arguments_of`, `scope_of`, `scope_own`, the flattened nested emission, the
     structural-check verdict and the error class. Vertices: node `n` ↦ `n`, source of graph `g` ↦ `-1-g`. -/
@@ -54,7 +55,21 @@ def pubJ (p : Prog) (req : Json) : List (String × Json) :=
       [("pub", Json.mkObj [("ok", true), ("inputs", toJson kept),
                            ("struct_ok", structOk (p.withMainArgs none) tr [])])]
 
+/-- round 10: `iterative_dfs(sources, adj, post_callback)` on an explicit graph (vertex = index into
+    `adj`), answered by the model's `visitMany` = `visit` (the definition `visit_spec`, `emitted_iff_reachable`,
+    `least_enclosing` … talk about) folded over the sources with one shared post-order/visited list. -/
+def dfsJ (j : Json) : Json :=
+  match j.getObjValAs? (List (List Nat)) "adj", j.getObjValAs? (List Nat) "sources" with
+  | .ok adj, .ok sources =>
+    let a : Nat → List Nat := fun v => (adj[v]?).getD []
+    let post := visitMany a (adj.length + 2) sources []
+    Json.mkObj [("post", toJson post)]
+  | _, _ => Json.mkObj [("error", "dfs: adj/sources expected")]
+
 def handle (req : Json) : Json :=
+  match req.getObjVal? "dfs" with
+  | .ok j => dfsJ j
+  | .error _ =>
   match parseProg req with
   | .error e => Json.mkObj [("error", e)]
   | .ok p =>
@@ -65,6 +80,8 @@ def handle (req : Json) : Json :=
       Json.mkObj (([
         ("ok", true), ("wf", wf),
         ("graph_topo", toJson b.graphTopo),
+        -- `scope_tree.subgraph_owner` (round 10; `owner_unique`)
+        ("owner", toJson (b.owner.map (fun e => [e.1, e.2]))),
         ("args_of", toJson (b.graphTopo.map (fun g => (g, lookupL b.argsOf g)))),
         ("scope_of", Json.arr (b.scopeOf.map (fun e => Json.arr #[vJ e.1, toJson e.2])).toArray),
         ("scope_own", Json.arr (b.graphTopo.map (fun g =>
